@@ -576,7 +576,14 @@ def find_isometry(form, partial_map, force_oriented=False):
 
     kernel_basis = kernel(orth_partial @ form).swapaxes(-1, -2)
 
-    orth_kernel = indefinite_orthogonalize(form, kernel_basis)
+    # the kernel basis is only orthonormal for the Euclidean form, so
+    # if the form is indefinite it may contain (or span) null vectors,
+    # and Gram-Schmidt can fail. Instead, diagonalize the restriction
+    # of the form to the orthogonal complement of the partial frame
+    # (the restriction is nondegenerate whenever the partial frame is).
+    restricted_form = kernel_basis @ form @ kernel_basis.swapaxes(-1, -2)
+    conj = diagonalize_form(restricted_form, with_inverse=False)
+    orth_kernel = conj.swapaxes(-1, -2) @ kernel_basis
 
     iso = np.concatenate([orth_partial, orth_kernel], axis=-2)
 
